@@ -1,2 +1,10 @@
 import BklProofs.C20
-#print axioms Bkl.C20_placeholder
+#print axioms Bkl.C20_length_order
+#print axioms Bkl.C20_verbatim
+#print axioms Bkl.C20_unsupported_ext
+#print axioms Bkl.C20_verbatim_ext
+#print axioms Bkl.C20_file_args
+#print axioms Bkl.C20_fail_no_exec
+#print axioms Bkl.C20_first_failure
+#print axioms Bkl.C20_step_error
+#print axioms Bkl.C20_name
